@@ -129,3 +129,20 @@ package decoder
 //@   loop 2 iter [C07] (len(candidates.List) == old(len(candidates.List)) + 1) == (label.Index == idx && (len(prefix) == 0 || strings.HasPrefix(label.Value, string(prefix))) && !old(haskey(foundCandidateNames, label.Value)))
 //@   loop 2 iter [C07] len(candidates.List) == old(len(candidates.List)) || len(candidates.List) == old(len(candidates.List)) + 1
 //@   loop 2 iter [C07] implies(len(candidates.List) > old(len(candidates.List)), haskey(foundCandidateNames, label.Value))
+
+// ---- C14: symbols. One symbol per attribute and per block, named and ranged after the item; the
+// ---- workspace query never fails (an unreadable path is skipped) and filters by name.
+//@ contract (*decoder.Decoder).Symbols (d, ctx, query) (result, err)
+//@   ensures [C14] err == nil
+//@ contract (*decoder.PathDecoder).symbols (d, query) (result, err)
+//@   loop 2 iter [C14] (len(symbols) == old(len(symbols)) + 1) == (query == "" || strings.Contains(symbol.Name(), query))
+//@   loop 2 iter [C14] len(symbols) == old(len(symbols)) || len(symbols) == old(len(symbols)) + 1
+//@ contract (*decoder.PathDecoder).symbolsForBody (d, body, bodySchema) (result)
+//@   loop 1 iter [C14] len(symbols) == old(len(symbols)) + 1
+//@   loop 1 iter [C14] typeis(symbols[len(symbols)-1], "*decoder.AttributeSymbol") && as(symbols[len(symbols)-1], "*decoder.AttributeSymbol").AttrName == name && as(symbols[len(symbols)-1], "*decoder.AttributeSymbol").rng == attr.Range
+//@   loop 2 iter [C14] len(symbols) == old(len(symbols)) + 1
+//@   loop 2 iter [C14] typeis(symbols[len(symbols)-1], "*decoder.BlockSymbol") && as(symbols[len(symbols)-1], "*decoder.BlockSymbol").Type == block.Type && as(symbols[len(symbols)-1], "*decoder.BlockSymbol").Labels == block.Labels && as(symbols[len(symbols)-1], "*decoder.BlockSymbol").rng == block.Range
+//@ contract (*decoder.PathDecoder).nestedSymbolsForExpr (d, expr) (result)
+//@   loop 1 iter [C14] len(symbols) == old(len(symbols)) + 1
+//@   loop 1 iter [C14] typeis(symbols[len(symbols)-1], "*decoder.ExprSymbol") && as(symbols[len(symbols)-1], "*decoder.ExprSymbol").rng == item.Range()
+//@   loop 2 iter [C14] len(symbols) == old(len(symbols)) || len(symbols) == old(len(symbols)) + 1
